@@ -995,8 +995,13 @@ pub fn run(scen: &str, tier: &str, rep: &mut Report) -> bool {
     }
     let cfg = RunCfg { hang_after: Duration::from_millis(3500), max_wall: Duration::from_secs(if tier == "thorough" { 3000 } else { 120 }), ..RunCfg::default() };
     let budget = Budget::secs(if tier == "thorough" { 2400 } else { 50 });
-    let per_child = if tier == "thorough" { 1200 } else { 40 };
-    let cases: Vec<Case> = cfgs.iter().flat_map(|c| partition(c, 2, per_child)).collect();
+    let mut cases: Vec<Case> = cfgs.iter().flat_map(|c| partition(c, 2, 40)).collect();
+    // share the wall budget between the children (16 run at a time)
+    let total_secs: u64 = if tier == "thorough" { 1800 } else { 40 };
+    let per_child = (total_secs * 16 / cases.len().max(1) as u64).clamp(if tier == "thorough" { 20 } else { 10 }, total_secs);
+    for c in &mut cases {
+        c.deadline_secs = per_child;
+    }
     let (mut st, mut tr, mut ex) = (0u64, 0u64, 0u64);
     let scen_s = scen.to_string();
     let mut bounds = Vec::new();
